@@ -3,7 +3,10 @@
 // TLS after <proceed/>, and records one logical trace per scenario for validation against
 // tla/StartTLS.tla.
 //
-//	starttls run <scripts.ndjson> <trace.ndjson>
+//	starttls run <jobs.ndjson> <trace.ndjson>
+//
+// A job (a record of StartTLS.tla's Jobs) is a peer script, the addresses of 1..3 successive
+// sessions negotiated with ONE StartTLS feature value, and the tee settings to run each under.
 package main
 
 import (
@@ -42,10 +45,75 @@ type Script struct {
 	Cfg    string `json:"cfg"`
 }
 
+// Addr is the address dimension of StartTLS.tla: how the session is made (kind), the domain of
+// its own address and the location (symbols d1..d3, l1..l3), the spelling of the own address
+// where it is given, and whether the peer's headers carry a `to`.
+type Addr struct {
+	Kind  string `json:"kind"`
+	Own   string `json:"own"`
+	Loc   string `json:"loc"`
+	Spell string `json:"spell"`
+	HTo   string `json:"hto"`
+}
+
+// Job: sessions with the addresses of Run, one after the other, sharing one feature value.
+type Job struct {
+	Peer Script `json:"peer"`
+	Run  []Addr `json:"run"`
+	Tees []int  `json:"tees"`
+}
+
 type Scenario struct {
 	Script
-	Tee    int    `json:"tee"`
-	Domain string `json:"domain"` // the session's own domain
+	Tee  int    `json:"tee"`
+	Addr Addr   `json:"addr"`
+	Hist []Addr `json:"hist"` // the sessions negotiated with the same feature value before this one
+}
+
+// rendering of the name symbols of StartTLS.tla
+var nameOf = map[string]string{
+	"d1": "example.net", "d2": "second.example", "d3": "third.example",
+	"l1": "xmpp1.example.org", "l2": "xmpp2.example.org", "l3": "xmpp3.example.org",
+}
+
+// symOf is the abstraction of an observed server name: the symbol whose rendering it is (domain
+// names are compared without regard to case), "other" for anything else.
+func symOf(name string) string {
+	for sym, n := range nameOf {
+		if strings.EqualFold(n, name) {
+			return sym
+		}
+	}
+	return "other"
+}
+
+// originText is the own address as the application writes it.
+func (a Addr) originText() string {
+	d := nameOf[a.Own]
+	if a.Spell == "upper" {
+		d = strings.ToUpper(d)
+	}
+	if a.Kind == "s2s" {
+		return d
+	}
+	return "me@" + d
+}
+
+func (a Addr) origin() jid.JID   { return jid.MustParse(a.originText()) }
+func (a Addr) location() jid.JID { return jid.MustParse(nameOf[a.Loc]) }
+
+// hdr is a stream header of the peer of a session with this address: `from` is the location,
+// `to` (if the peer sends one) the own address, the content namespace that of the stream kind.
+func (a Addr) hdr() string {
+	xmlns := "jabber:client"
+	if a.Kind == "s2s" {
+		xmlns = "jabber:server"
+	}
+	to := ""
+	if a.HTo == "echo" {
+		to = ` to='` + a.origin().String() + `'`
+	}
+	return `<?xml version='1.0'?><stream:stream xmlns='` + xmlns + `' xmlns:stream='http://etherx.jabber.org/streams' version='1.0' id='s1' from='` + nameOf[a.Loc] + `'` + to + `>`
 }
 
 const (
@@ -78,10 +146,6 @@ var (
 	goodCert, goodPool = mkCert("example.net", "second.example", "third.example")
 	badCert, _         = mkCert("wrong.example")
 )
-
-func hdr(from string) string {
-	return `<?xml version='1.0'?><stream:stream xmlns='jabber:client' xmlns:stream='http://etherx.jabber.org/streams' version='1.0' id='s1' from='` + from + `'>`
-}
 
 func featBytes(v string) string {
 	tlsReq := `<starttls xmlns='` + nsTLS + `'><required/></starttls>`
@@ -127,11 +191,11 @@ func answerBytes(a string) string {
 	panic(a)
 }
 
-func injectBytes(i, domain string) string {
+func injectBytes(i string, a Addr) string {
 	switch i {
 	case "fakestream":
 		// a complete fake "protected" stream claiming that nothing is left to negotiate
-		return hdr(domain) + "<stream:features/>"
+		return a.hdr() + "<stream:features/>"
 	case "garbage":
 		return "\x00\x01garbage<<<&&&"
 	}
@@ -165,7 +229,7 @@ func runPeerGated(sc Scenario, c *vt.Conn, obs *peerObs, done chan struct{}, bef
 	if beforeHello != nil {
 		beforeHello()
 	}
-	io.WriteString(c, hdr(sc.Domain)+featBytes(sc.Feat))
+	io.WriteString(c, sc.Addr.hdr()+featBytes(sc.Feat))
 	// wait for <starttls/> (anything else is recorded by the wire tap, we just keep reading)
 	for {
 		tok, err := d.RawToken()
@@ -186,7 +250,7 @@ func runPeerGated(sc Scenario, c *vt.Conn, obs *peerObs, done chan struct{}, bef
 		c.Close()
 		return
 	}
-	io.WriteString(c, answerBytes(sc.Answer)+injectBytes(sc.Inject, sc.Domain))
+	io.WriteString(c, answerBytes(sc.Answer)+injectBytes(sc.Inject, sc.Addr))
 	if sc.Answer != "proceed" {
 		// keep reading so that the client is never blocked on a write
 		io.Copy(io.Discard, c)
@@ -232,7 +296,7 @@ func runPeerGated(sc Scenario, c *vt.Conn, obs *peerObs, done chan struct{}, bef
 		switch {
 		case st.Name.Local == "stream" && step == 0:
 			step = 1
-			io.WriteString(tc, hdr(sc.Domain)+"<stream:features><post xmlns='urn:vt:post' req='1'/></stream:features>")
+			io.WriteString(tc, sc.Addr.hdr()+"<stream:features><post xmlns='urn:vt:post' req='1'/></stream:features>")
 		case st.Name.Local == "neg":
 			obs.mu.Lock()
 			obs.negPost = true
@@ -336,7 +400,15 @@ func runOneGated(sc Scenario, startTLS xmpp.StreamFeature, beforeAnswer, gotStar
 	var pan interface{}
 	func() {
 		defer func() { pan = recover() }()
-		s, err = xmpp.NewSession(ctx, jid.MustParse(sc.Domain), jid.MustParse("me@"+sc.Domain), a, 0, xmpp.NewNegotiator(cfgf))
+		switch {
+		case sc.Addr.Kind == "client" && sc.Tee == 0:
+			// the location is derived from the own address by the library
+			s, err = xmpp.NewClientSession(ctx, sc.Addr.origin(), a, features(startTLS, &negotiated)...)
+		case sc.Addr.Kind == "s2s":
+			s, err = xmpp.NewSession(ctx, sc.Addr.location(), sc.Addr.origin(), a, xmpp.S2S, xmpp.NewNegotiator(cfgf))
+		default:
+			s, err = xmpp.NewSession(ctx, sc.Addr.location(), sc.Addr.origin(), a, 0, xmpp.NewNegotiator(cfgf))
+		}
 	}()
 	timedOut := ctx.Err() != nil
 	a.Close()
@@ -349,14 +421,14 @@ func runOneGated(sc Scenario, startTLS xmpp.StreamFeature, beforeAnswer, gotStar
 	}
 	obs.mu.Lock()
 	if obs.hello {
-		name := "other"
-		switch {
-		case sc.Cfg == "explicit":
+		// the name symbol of the specification the observed server name renders; which name it has to be
+		// is the specification's business
+		name := symOf(obs.sni)
+		if sc.Cfg == "explicit" {
 			name = "explicit"
-		case obs.sni == sc.Domain:
-			name = "own"
 		}
-		evs = append(evs, vt.Ev{"ev": "handshake", "name": name, "sni": obs.sni, "server_ok": obs.hsOK})
+		evs = append(evs, vt.Ev{"ev": "handshake", "name": name, "sni": obs.sni, "server_ok": obs.hsOK,
+			"origin": sc.Addr.originText(), "location": nameOf[sc.Addr.Loc]})
 	}
 	if negotiated {
 		evs = append(evs, vt.Ev{"ev": "negotiate_post", "seen_by_peer_inside_tls": obs.negPost})
@@ -398,21 +470,22 @@ func runOneGated(sc Scenario, startTLS xmpp.StreamFeature, beforeAnswer, gotStar
 
 func main() {
 	if len(os.Args) < 4 || os.Args[1] != "run" {
-		fmt.Fprintln(os.Stderr, "usage: starttls run <scripts.ndjson> <trace.ndjson>")
+		fmt.Fprintln(os.Stderr, "usage: starttls run <jobs.ndjson> <trace.ndjson>")
 		os.Exit(2)
 	}
 	f, err := os.Open(os.Args[2])
 	if err != nil {
 		panic(err)
 	}
-	var scripts []Script
+	var jobs []Job
 	rd := bufio.NewScanner(f)
+	rd.Buffer(make([]byte, 1<<20), 1<<24)
 	for rd.Scan() {
-		var s Script
-		if err := json.Unmarshal(rd.Bytes(), &s); err != nil {
+		var j Job
+		if err := json.Unmarshal(rd.Bytes(), &j); err != nil {
 			panic(err)
 		}
-		scripts = append(scripts, s)
+		jobs = append(jobs, j)
 	}
 	f.Close()
 	tw, err := vt.NewTraceWriter(os.Args[3])
@@ -422,32 +495,32 @@ func main() {
 	var mism []interface{}
 	var samples []interface{}
 	runs := 0
-	domains := []string{"example.net", "second.example", "third.example"}
-	for _, sp := range scripts {
+	byKind := map[string]int{}
+	overlap := os.Getenv("STARTTLS_OVERLAP") != "0"
+	for _, job := range jobs {
+		sp := job.Peer
 		if sp.Cfg == "default" {
 			sp.HS = "fail" // the harness certificate is not in the system roots: verification always fails
 		}
-		// one StartTLS feature value shared by three successive sessions with different domains
+		// one StartTLS feature value shared by the successive sessions of the job
 		var cfg *tls.Config
 		if sp.Cfg == "explicit" {
 			cfg = &tls.Config{ServerName: "example.net", RootCAs: goodPool, MinVersion: tls.VersionTLS12}
 		}
 		shared := xmpp.StartTLS(cfg)
-		for k, dom := range domains {
-			if sp.Cfg == "explicit" && k > 0 {
-				break // an explicit config names its own server: reuse says nothing there
-			}
+		for k, addr := range job.Run {
 			var ref outcome
-			for tee := 0; tee < 4; tee++ {
-				sc := Scenario{Script: sp, Tee: tee, Domain: dom}
+			for ti, tee := range job.Tees {
+				sc := Scenario{Script: sp, Tee: tee, Addr: addr, Hist: append([]Addr{}, job.Run[:k]...)}
 				o := runOne(sc, shared)
 				runs++
-				t := tw.Write(vt.Ev{"script": sp, "tee": tee, "session": k + 1}, o.evs)
-				tw.Meta(sc)
+				byKind[addr.Kind+"/"+map[bool]string{true: "loc=own", false: "loc#own"}[addr.Loc == addr.Own]]++
+				t := tw.Write(vt.Ev{"script": sc, "tee": tee, "session": k + 1}, o.evs)
+				tw.Meta(vt.Ev{"scenario": sc, "job": Job{Peer: job.Peer, Run: job.Run, Tees: []int{tee}}, "session": k + 1})
 				if len(samples) < 2 && tee == 0 {
 					samples = append(samples, vt.Ev{"t": t, "scenario": sc, "events": o.evs})
 				}
-				if tee == 0 {
+				if ti == 0 {
 					ref = o
 					continue
 				}
@@ -465,15 +538,19 @@ func main() {
 	}
 	// two OVERLAPPING sessions with different domains sharing one StartTLS(nil) value: session 2 sends
 	// its <starttls/> after session 1 did and before session 1's peer answers <proceed/>
-	for rep := 0; rep < 3; rep++ {
+	plain := func(k int) Addr {
+		d := []string{"d1", "d2", "d3"}[k]
+		return Addr{Kind: "c2s", Own: d, Loc: d, Spell: "lower", HTo: "absent"}
+	}
+	for rep := 0; rep < 3 && overlap; rep++ {
 		shared := xmpp.StartTLS(nil)
 		gate := make(chan struct{})  // closed when peer 2 has session 2's <starttls/>
 		gate1 := make(chan struct{}) // closed when peer 1 has session 1's <starttls/>
 		var wg sync.WaitGroup
 		outs := make([]outcome, 2)
 		scs := []Scenario{
-			{Script: Script{Feat: "tls_required", Answer: "proceed", Inject: "none", HS: "fail", Cfg: "default"}, Domain: "example.net"},
-			{Script: Script{Feat: "tls_optional", Answer: "proceed", Inject: "none", HS: "fail", Cfg: "default"}, Domain: "second.example"},
+			{Script: Script{Feat: "tls_required", Answer: "proceed", Inject: "none", HS: "fail", Cfg: "default"}, Addr: plain(0), Hist: []Addr{}},
+			{Script: Script{Feat: "tls_optional", Answer: "proceed", Inject: "none", HS: "fail", Cfg: "default"}, Addr: plain(1), Hist: []Addr{plain(0)}},
 		}
 		for i := range scs {
 			wg.Add(1)
@@ -491,13 +568,14 @@ func main() {
 		wg.Wait()
 		for i := range scs {
 			runs++
-			tw.Write(vt.Ev{"script": scs[i].Script, "tee": 0, "session": 10 + i}, outs[i].evs)
-			tw.Meta(scs[i])
+			tw.Write(vt.Ev{"script": scs[i], "tee": 0, "session": 10 + i}, outs[i].evs)
+			tw.Meta(vt.Ev{"scenario": scs[i], "overlapping": true, "session": 10 + i})
 		}
 	}
 	if err := tw.Close(); err != nil {
 		panic(err)
 	}
 	tr, ev := tw.Counts()
-	vt.Summary{Traces: tr, Events: ev, Evaluations: runs, Distinct: tr, Mismatches: mism, Samples: samples}.Print()
+	vt.Summary{Traces: tr, Events: ev, Evaluations: runs, Distinct: tr, Mismatches: mism, Samples: samples,
+		Extra: map[string]interface{}{"sessions_by_address_kind": byKind}}.Print()
 }
